@@ -7,6 +7,18 @@ DVBS2_CODES = ["R1_4", "R1_3", "R2_5", "R1_2", "R3_5", "R2_3", "R3_4", "R4_5", "
                "R1_4short", "R1_3short", "R2_5short", "R1_2short", "R3_5short", "R2_3short", "R3_4short",
                "R4_5short", "R5_6short", "R8_9short"]
 
+FL_FRAMES = [{"file": "src/decoder/flooding.rs", "item": "impl Decoder::" + n, "name": n}
+             for n in ["initialize", "process_check_nodes", "process_variable_nodes"]]
+HL_FRAMES = [{"file": "src/decoder/horizontal_layered.rs", "item": "impl Decoder::" + n, "name": n}
+             for n in ["initialize", "process_check_nodes"]]
+DECODE_ASSUMPTIONS = [
+    "check_llrs and hard_decisions trusted (external_body): existential contracts over the closure's ensures; parity_ok uninterpreted",
+    "initialize / process_check_nodes / process_variable_nodes trusted (external_body); their frames are derived from the source's syntactic write sets",
+    "DecoderArithmetic: llr_hard_decision and var_llr_to_llr are functions of (rules(), argument); rules() is preserved by the &mut methods",
+    "f64 `x <= 0.0` is a function of x (axiom_f64_le_functional); floats are otherwise uninterpreted",
+    "max_iterations < usize::MAX (RangeInclusive ghost iterator)",
+]
+
 PROPS = {
     "C17": {
         "level": "proof",
@@ -61,6 +73,34 @@ PROPS = {
             "phi_k(j, M) pinned to the tree the check was written against (specs/ccsds/phi_pinned.rs.in), not independently transcribed",
             "SparseMatrix::new trusted (external_body)",
             "usize is 64-bit",
+        ],
+    },
+    "C01": {
+        "level": "proof",
+        "title": "A decoder never reports success on a word that is not a codeword",
+        "verus": [
+            {"unit": "flooding_c01", "template": "decode/flooding.rs.in", "defines": ["C01"], "rlimit": 100, "canary": True,
+             "frames": FL_FRAMES},
+            {"unit": "hl_c01", "template": "decode/hl.rs.in", "defines": ["C01"], "rlimit": 100, "canary": True,
+             "frames": HL_FRAMES},
+        ],
+        "kani": {"quick": [], "thorough": []},
+        "witness": "c01",
+        "assumptions": DECODE_ASSUMPTIONS,
+    },
+    "C10": {
+        "level": "proof",
+        "title": "A decoder object carries no state from one frame to the next",
+        "verus": [
+            {"unit": "flooding_c10", "template": "decode/flooding.rs.in", "defines": ["C10"], "rlimit": 100, "canary": True,
+             "frames": FL_FRAMES},
+            {"unit": "hl_c10", "template": "decode/hl.rs.in", "defines": ["C10"], "rlimit": 100, "canary": True,
+             "frames": HL_FRAMES},
+        ],
+        "kani": {"quick": [], "thorough": []},
+        "witness": "c10",
+        "assumptions": DECODE_ASSUMPTIONS + [
+            "functional claims of the trusted callees: every buffer a callee can write (syntactic write set, derived from the source on each run) is completely rewritten from the named inputs",
         ],
     },
 }
